@@ -19,3 +19,4 @@ PROP = {'engine': 'stack',
  'level_note': 'orders at the granularity of whole API calls; invocations are sequential (C10 covers concurrent callers)',
  'technique': 'property-based testing (rapid): generated schedules enforced by latches, history invariant effect-vs-issue plus event content '
               'equality'}
+PROP['rule'] += ' Round-4 addition: in a quarter of the cases a second internal extension registers without subscriptions and parks on its next: it receives no event and the invocations do not wait for it.'
